@@ -90,7 +90,7 @@ GENERIC_CONTRACT = '''
 '''
 # T14b: `xs.iter().map(|p| F(p)).collect::<Result<Vec<_>, _>>()` followed by `?` is the loop that pushes F(p) and returns the first Err
 # (std: FromIterator for Result short-circuits at the first Err); closures capturing `&mut self` are outside Verus
-COLLECT_LOOP = '''let ghost c0 = self.cfg();
+COLLECT_HEAD = '''let ghost c0 = self.cfg();
             let mut acc: Vec<String> = Vec::new();
             for p in it: parameters.iter()
                 invariant obeys_key_model::<String>(), self.cfg() == c0, c0 == old(self).cfg(), mapped(c0, *base) is None,
@@ -99,7 +99,8 @@ COLLECT_LOOP = '''let ghost c0 = self.cfg();
                     forall|k: int| 0 <= k < it.index@ ==> tx_ok(c0, generic_types@, #[trigger] parameters@[k], acc@[k]@),
             {
                 proof { assert(parameters@[it.index@] == *p); assert(decreases_to!(parameters@ => parameters@[it.index@])); }
-                match self.format_type(p, generic_types) {
+                match ('''
+COLLECT_TAIL = ''') {
                     Ok(x) => { acc.push(x); }
                     Err(e) => { proof { assert(tx_may_fail(c0, generic_types@, parameters@[it.index@])); } return Err(e); }
                 }
@@ -116,8 +117,10 @@ def default_generic():
     return [
         ins(A.ret(), '(r: ', where='before'), ins(A.ret(), ')', where='after'),
         ins(A.sig(), GENERIC_CONTRACT, cid='format_generic_type.contract'),
-        rep(A.span('let parameters: Result<Vec<String>, RustTypeFormatError> = parameters', 'let parameters = parameters?;'), COLLECT_LOOP, tag='T14b',
-            note='iter().map(F).collect::<Result<Vec<_>,_>>()? is the loop pushing F(p), returning the first Err (std FromIterator for Result)'),
+        # the closure body F(p) stays verbatim between the two replaced frames
+        rep(A.span('let parameters: Result<Vec<String>, RustTypeFormatError> = parameters', '.map(|p|'), COLLECT_HEAD, tag='T14b',
+            note='iter().map(|p| F).collect::<Result<Vec<_>,_>>()? is the loop pushing F, returning the first Err (std FromIterator for Result); F stays verbatim'),
+        rep(A.span(') .collect();', 'let parameters = parameters?;'), COLLECT_TAIL, tag='T14b'),
         # bool::then(|| E).unwrap_or_default()  ->  if b { E } else { String::new() }   (E itself stays verbatim)
         rep(A.span('(!parameters.is_empty())', '.then(||'), '(if !parameters.is_empty() {', tag='T14b',
             note='bool::then(f).unwrap_or_default() is `if b { f() } else { String::default() }` (std)'),
